@@ -147,8 +147,12 @@ func SafeExec(impl Impl, line string) (out string) {
 func execCase(impl Impl, lines []string) []string {
 	impl.Reset()
 	outs := make([]string, len(lines))
+	trace := os.Getenv("VERIF_TRACE") != ""
 	for i, l := range lines {
 		outs[i] = SafeExec(impl, l)
+		if trace {
+			fmt.Fprintf(os.Stderr, "TRACE %s\n   -> %s\n", l, outs[i])
+		}
 	}
 	return outs
 }
